@@ -15,17 +15,17 @@ CHECKS = {
     "C04": ("contract on annotator.find_stackings + dense stacking reference model with margins", "4.C04",
             "Soundness and completeness of the stacking list against an O(n^2) evaluation of centroid distance, inter-normal angle and offset angle; placements sweep each quantity across its threshold."),
     "C05": ("metamorphic twins through the real annotator, outputs compared modulo renaming, margins measured", "4.C05",
-            "Each case and its presentation twin (rigid motion, atom order, order-preserving relabelling, PDB vs mmCIF text of the same table) run through extract_secondary_structure; lists and 2D texts must be equal; pairs with a decision quantity within 1e-6 of a threshold in either member are excluded by measurement."),
+            "Each case and its presentation twin (rigid motion, atom order, order-preserving relabelling, PDB vs mmCIF text of the same table) run through extract_secondary_structure; lists and 2D texts must be equal; pairs with a decision quantity within 1e-6 of a threshold in either member are excluded by measurement; hostile bases (insertion codes, reversed orders, negative numbers) and process-history families (other conformations with the same identifiers annotated first) under every twin kind."),
     "C06": ("contracts on the Mapping2D3D outputs + independent numbering/canonical-conflict/row decoder model", "4.C06",
             "For corpus structures x (own annotation | random hostile pair lists) x gap detection, the BPSEQ, per-strand text, all-dot-brackets and extended rows are decoded and compared with an independent model of numbering, canonical filtering, conflicts and class orientation."),
     "C07": ("contract on BpSeq.elements + independent decomposition reference model", "4.C07",
-            "Every observed decomposition is compared with maximal stacked runs, hairpin pairs, loop closure and an interior-coverage count per unpaired nucleotide; exhaustive small scope + random."),
+            "Every observed decomposition is compared with maximal stacked runs, hairpin pairs, loop closure and an interior-coverage count per unpaired nucleotide; exhaustive small scope + random; decompositions requested while the MILP back-end fails transiently are compared with the notation the object answers with afterwards."),
     "C08": ("contract on parser.read_3d_structure vs expected atom multiset from a known abstract table", "4.C08",
-            "Generated and corpus tables are emitted as PDB and mmCIF by an independent emitter; every read (default, each model, absent model) is compared with the expected atom multiset per model; all NMR models of the corpus ensembles."),
+            "Generated and corpus tables are emitted as PDB and mmCIF by an independent emitter; every read (default, each model, absent model) is compared with the expected atom multiset per model; all NMR models of the corpus ensembles; the raw corpus files (gzip, MODRES, entity categories) against an independently read table, with and without nucleic_acid_only."),
     "C09": ("round-trip twins through parser_v2 + 80-column grammar and record automaton on every write_pdb result", "4.C09",
-            "Four write/read paths per table compared field by field with the abstract table; every written PDB document is parsed by an independent column grammar and a record-sequence automaton."),
+            "Four write/read paths per table compared field by field with the abstract table; every written PDB document is parsed by an independent column grammar and a record-sequence automaton; a third of the round trips use the other documented input/output object kinds (StringIO, text/binary handles, paths)."),
     "C10": ("contract on fit_to_pdb + independent feasibility test + bijection check + write/read back", "4.C10",
-            "Tables within and beyond PDB limits (incl. >62 chains, >9999 residues per chain, >99999 atoms in thorough) are fitted; result judged for limits, field preservation, one-to-one renaming, refusal iff infeasible, and survival of write_pdb/parse_pdb_atoms."),
+            "Tables within and beyond PDB limits (incl. >62 chains, >9999 residues per chain, >99999 atoms in thorough, residues with non-contiguous records, derived/subset frames) are fitted; result judged for limits, field preservation, one-to-one renaming, refusal iff infeasible, and survival of write_pdb/parse_pdb_atoms."),
     "C11": ("contracts on find_pairs/find_stackings + frozen Saenger/Zirbel tables + re-read CSV/JSON", "4.C11",
             "Well-formedness clauses (duplicates, self, membership, orientation, sortedness, Saenger, BPh/BR donor contact and class, one class per pair) judged on every observed annotation including all NMR models."),
     "C12": ("recorded call histories on object pools checked step by step against a fresh-object model", "4.C12",
@@ -33,19 +33,19 @@ CHECKS = {
     "C13": ("fault/configuration injection at the PuLP boundary; complete matrix enumeration", "4.C13",
             "All 13 cells of {HiGHS-stub,CBC,none} x {ok,raise,4 bad statuses} x both entry points are enumerated for every knotted input; inputs are sampled. A missing cell makes the run inconclusive."),
     "C14": ("recorded outputs of fresh interpreters under different hash seeds, offline byte comparison", "4.C14",
-            "Every tool/library output for each (tool, options, input) triple is recorded under 3 (quick) / 6 (thorough) hash seeds plus an in-process repetition and compared byte for byte; the witness is the first differing line."),
+            "Every tool/library output for each (tool, options, input) triple is recorded under 3 (quick) / 6 (thorough) hash seeds plus an in-process repetition and compared byte for byte; several related inputs handled in a row by one interpreter must print what a fresh interpreter prints for each; external pair lists with same-rank conflicts through the adapter; the witness is the first differing line."),
     "C15": ("differential twins: 2 reader generations x 2 formats compared as maps with each other and the abstract table", "4.C15",
             "Residue sets, atom sets, coordinates, pairwise connectivity, connected segments and |chi| from four readings of the same single-conformer table must agree."),
     "C16": ("contract on all_dot_brackets + Grundy-colouring enumerator as reference model", "4.C16",
-            "Set equality between the library's list and an independent enumeration of greedy-stable assignments, exhaustive over pairings up to N plus random multi-component knots."),
+            "Set equality between the library's list and an independent enumeration of greedy-stable assignments, exhaustive over pairings up to N plus random multi-component knots, groups of exactly eight stems and sparse groups of nine (ten in thorough) stems."),
     "C17": ("contract on find_clashes (all 32 option combinations) + O(n^2) reference + in-process CLI with parsed stdout/CSV", "4.C17",
-            "Set equality of the clash list with a dense enumeration for every option combination on corpus, scaled/jittered and synthetic partial-occupancy structures; printed maxima and CSV rows compared with the list."),
+            "Set equality of the clash list with a dense enumeration for every option combination on corpus, scaled/jittered and synthetic partial-occupancy structures; printed maxima (within a chain and between chains) and CSV rows compared with the list."),
     "C18": ("contracts on both torsion functions judging every call against an independent dihedral + constructive builder", "4.C18",
-            "Every call of either torsion implementation made by any workload (builder quadruples under rigid motions, reversal, mirroring; corpus chi/backbone torsions via Residue3D.chi, the annotator and Structure.torsion_angles) is compared with an IUPAC reference validated against a constructive builder in the same run."),
+            "Every call of either torsion implementation made by any workload (builder quadruples under rigid motions, reversal, mirroring; corpus chi/backbone torsions via Residue3D.chi, the annotator and Structure.torsion_angles) is compared with an IUPAC reference validated against a constructive builder in the same run; chi read after a full 2D analysis of the same object must equal the dihedral of the atoms' own coordinates."),
     "C19": ("contracts on the FR3D/DSSR importers + regular-expression reference of the label language", "4.C19",
             "Label space exhaustive to length 4 (quick) / 6 over a reduced alphabet (thorough); generated listings and DSSR documents judged against a unit-id grammar and resolvable-name oracle."),
     "C20": ("contracts on copy_from_to/replace_value + in-process CLI twin, frames compared by an independent CIF tokenizer", "4.C20",
-            "Input and output documents are parsed by an independent tokenizer and compared cell by cell; the CLI is run in-process on the same content and compared byte for byte with the library result."),
+            "Input and output documents are parsed by an independent tokenizer and compared cell by cell; the CLI is run in-process on the same content and compared byte for byte with the library result; multi-block documents (blocks after the first must survive unchanged); incomplete CLI modes must write nothing."),
 }
 
 LEVEL_NOTE = {
@@ -64,10 +64,10 @@ LEVEL_NOTE = {
     "C13": "HiGHS configuration is an interface-compatible stub delegating to CBC; faults injected at actualSolve/status",
     "C14": "hash seeds sampled, not enumerated; third-party libraries assumed deterministic given the seed",
     "C15": "single-conformer decided on the abstract table; only |chi| compared (sign is C18's known finding)",
-    "C16": "components up to 8 stems (enumeration is factorial inside the library)",
+    "C16": "components up to 8 stems in general, designated sparse groups of 9 (thorough: 10) stems (enumeration is factorial inside the library)",
     "C17": "frozen radii; typing by first letter of the stripped name; null occupancy = 1; is_nucleotide trusted",
     "C18": "reference dihedral formula validated by construction; tolerance 1e-9; degenerate geometry (sine product < 1e-3) skipped",
-    "C19": "label/unit-id grammar is the specification side; decorated non-LW labels and liberal-int numbers undecided",
+    "C19": "label/unit-id grammar is the specification side; decorated non-LW labels, liberal-int numbers and labels that only Unicode case mapping turns into LW labels undecided",
     "C20": "category order in the file is not demanded (the third-party writer moves atom_site last); alphabet overflow outside the statement",
 }
 
